@@ -11,6 +11,63 @@ func RemoveMatchComments(file *ast.File, pattern *regexp.Regexp) {
 	for _, group := range file.Comments {
 		_ = ExtractMatchComments(group, pattern)
 	}
+
+	// A comment group that became empty must not stay in the tree: it has no position.
+	comments := make([]*ast.CommentGroup, 0, len(file.Comments))
+	for _, group := range file.Comments {
+		if 0 < len(group.List) {
+			comments = append(comments, group)
+		}
+	}
+	file.Comments = comments
+
+	empty := func(cg *ast.CommentGroup) bool {
+		return cg != nil && len(cg.List) == 0
+	}
+	if empty(file.Doc) {
+		file.Doc = nil
+	}
+	ast.Inspect(file, func(node ast.Node) bool {
+		switch n := node.(type) {
+		case *ast.GenDecl:
+			if empty(n.Doc) {
+				n.Doc = nil
+			}
+		case *ast.FuncDecl:
+			if empty(n.Doc) {
+				n.Doc = nil
+			}
+		case *ast.TypeSpec:
+			if empty(n.Doc) {
+				n.Doc = nil
+			}
+			if empty(n.Comment) {
+				n.Comment = nil
+			}
+		case *ast.ValueSpec:
+			if empty(n.Doc) {
+				n.Doc = nil
+			}
+			if empty(n.Comment) {
+				n.Comment = nil
+			}
+		case *ast.ImportSpec:
+			if empty(n.Doc) {
+				n.Doc = nil
+			}
+			if empty(n.Comment) {
+				n.Comment = nil
+			}
+		case *ast.Field:
+			if empty(n.Doc) {
+				n.Doc = nil
+			}
+			if empty(n.Comment) {
+				n.Comment = nil
+			}
+		}
+		return true
+	})
 }
 
 // MatchComments reports whether any comment line in commentGroup contains
